@@ -447,9 +447,41 @@ def check_loop_generators_uniform(ctx):
             ctx.violation('R2-move-runs-as-a-field', fi, '%s: %d block templates, %d kind tests (%s)' % (mname, len(ts), len(branches), unparse(branches[0].test)[:80] if branches else ''), 'the generated code special-cases some field kinds instead of calling their own pack / unpack: inlined positioning ignores the reference point on one side only', fi.node.lineno, clause='e')
 
 
+def check_move_is_never_switched_off(ctx, rule='R8-position-arithmetic'):
+    """Round 7.  every positioning pseudo-field runs Move.pack / Move.unpack: nothing at class
+    creation (a _compile of Move, a table) installs another pack / unpack on it.  A Move that is
+    switched off because it "cannot move anything" is right only if the cursor is provably at the
+    target already, for every nesting of the packet and every reference point -- not followed"""
+    repo = ctx.repo
+    mv = repo.cls('Move')
+    n = 0
+    for s_ in repo.strategies(mv):
+        for kind in ('pack', 'unpack'):
+            f_ = s_.get(kind)
+            if f_ is None:
+                continue
+            n += 1
+            if f_.qual in ('Move.pack', 'Move.unpack'):
+                continue
+            gs_all = [g for gs in (s_.get('guard_sets') or []) for g in gs]
+            import re as _re
+            others = set(_re.findall(r'(fields\[[^\]]*\]\[1\])\.is_alignment', ' '.join(gs_all)))
+            blind = [o for o in others if (o + '.reference') not in ' '.join(gs_all)]
+            if blind:
+                ctx.violation(rule, f_, 'Move runs %s as its %s because %s is an alignment to the same constant' % (f_.qual, kind, blind[0]),
+                              'the alignment of the neighbour is taken as proof that the cursor is aligned, but the reference point of that alignment is never looked at: aligned relative to the innermost packet is not aligned relative to the start of the data when the packet is nested at an odd offset -- the field is then placed without its padding', f_.node.lineno, clause='a', witness=True)
+                continue
+            ctx.undecided(rule, f_, 'Move runs %s as its %s under [%s]' % (f_.qual, kind, '; '.join(sorted(set.intersection(*[set(g) for g in s_.get('guard_sets') or [[]]])))[:100]),
+                          'a positioning pseudo-field is replaced by another pack / unpack at class creation: cannot see that the cursor is at the target whenever that happens', f_.node.lineno, clause='a')
+    comp = mv.methods.get('_compile')
+    if comp is None:
+        ctx.holds(rule, (mv.file, 'Move'), 'Move has no _compile of its own', 'every Move runs Move.pack / Move.unpack', mv.node.lineno, clause='a')
+
+
 def check(ctx):
     check_modifiers(ctx)
     check_move(ctx)
+    check_move_is_never_switched_off(ctx)
     check_sequence_pads(ctx)
     layout = D.fields_tuple_layout(ctx.repo)
     for d in D.get_drivers(ctx.repo):
